@@ -1,0 +1,56 @@
+/*
+ * Atree - Scalable Arrays and Ordered Maps
+ *
+ * Copyright Flow Foundation
+ *
+ * Licensed under the Apache License, Version 2.0 (the "License");
+ * you may not use this file except in compliance with the License.
+ * You may obtain a copy of the License at
+ *
+ *   http://www.apache.org/licenses/LICENSE-2.0
+ *
+ * Unless required by applicable law or agreed to in writing, software
+ * distributed under the License is distributed on an "AS IS" BASIS,
+ * WITHOUT WARRANTIES OR CONDITIONS OF ANY KIND, either express or implied.
+ * See the License for the specific language governing permissions and
+ * limitations under the License.
+ */
+
+//go:build verif
+
+package atree
+
+//@ # ---------------------------------------------------------------- child-reference enumeration (C20, C09): complete for every slab kind
+
+//@ func (a *ArrayDataSlab) ChildStorables() (r)  serves C09 C20
+//@   ensures len(r) == len(a.elements) && (forall k :: 0 <= k && k < len(r) ==> r[k] == a.elements[k]) && origin(r) != origin(a.elements)
+//@   modifies alloc
+
+//@ func (a *ArrayMetaDataSlab) ChildStorables() (r)  serves C09 C20
+//@   ensures len(r) == len(a.childrenHeaders) && (forall k :: 0 <= k && k < len(r) ==> r[k] == iface(SlabIDStorable(a.childrenHeaders[k].slabID)))
+//@   modifies alloc
+//@   loop 1: invariant 0 <= i && i <= len(a.childrenHeaders) && len(childIDs) == len(a.childrenHeaders) &&
+//@        (forall k :: 0 <= k && k < i ==> childIDs[k] == iface(SlabIDStorable(a.childrenHeaders[k].slabID)))
+
+//@ func (m *MapMetaDataSlab) ChildStorables() (r)  serves C09 C20
+//@   ensures len(r) == len(m.childrenHeaders) && (forall k :: 0 <= k && k < len(r) ==> r[k] == iface(SlabIDStorable(m.childrenHeaders[k].slabID)))
+//@   modifies alloc
+//@   loop 1: invariant 0 <= i && i <= len(m.childrenHeaders) && len(childIDs) == len(m.childrenHeaders) &&
+//@        (forall k :: 0 <= k && k < i ==> childIDs[k] == iface(SlabIDStorable(m.childrenHeaders[k].slabID)))
+
+//@ # one element contributes: its key and value (single element), the reference to its slab (external group), or the contributions of
+//@ # its nested list (inline group); nothing already collected is dropped or reordered
+//@ func elementStorables(e, childStorables) (r)  serves C09 C20
+//@   requires e != nil
+//@   ensures len(r) >= len(childStorables) && (forall k :: 0 <= k && k < len(childStorables) ==> r[k] == childStorables[k])
+//@   ensures is(e, *singleElement) ==> len(r) == len(childStorables) + 2 && r[len(childStorables)] == as(e, *singleElement).key && r[len(childStorables) + 1] == as(e, *singleElement).value
+//@   ensures is(e, *externalCollisionGroup) ==> len(r) == len(childStorables) + 1 && r[len(childStorables)] == iface(SlabIDStorable(as(e, *externalCollisionGroup).slabID))
+//@   modifies alloc
+
+//@ func elementsStorables(elems, childStorables) (r)  serves C09 C20
+//@   requires is(elems, *hkeyElements) ==> (forall k :: 0 <= k && k < len(as(elems, *hkeyElements).elems) ==> as(elems, *hkeyElements).elems[k] != nil)
+//@   requires is(elems, *singleElements) ==> (forall k :: 0 <= k && k < len(as(elems, *singleElements).elems) ==> as(elems, *singleElements).elems[k] != nil)
+//@   ensures len(r) >= len(childStorables) && (forall k :: 0 <= k && k < len(childStorables) ==> r[k] == childStorables[k])
+//@   modifies alloc
+//@   loop 1: invariant 0 <= i && len(childStorables) >= len(old(childStorables)) && (forall k :: 0 <= k && k < len(old(childStorables)) ==> childStorables[k] == old(childStorables)[k])
+//@   loop 2: invariant 0 <= i && len(childStorables) >= len(old(childStorables)) && (forall k :: 0 <= k && k < len(old(childStorables)) ==> childStorables[k] == old(childStorables)[k])
